@@ -257,3 +257,15 @@ CLAIMS["C38"] = (
     "m < n and k up to the maximum order, in exact rational arithmetic (the equations determine the weights uniquely "
     "for k < n)",
     "6/C38", TRUSTED, "TLA+ exactness contract over exact rationals + TLC trace validation")
+
+CLAIMS["C46"] = (
+    "model_checking",
+    "TLC enumerates all 1x2 matrices over -3..3, all 1x3 and 2x2 over -2..2, seeded 2x3 over -2..2 and 1x4, 2x4, 3x3 "
+    "over small entries; for every vector returned by homogeneous_lde TLC checks by definition that it is a "
+    "non-zero non-negative solution with no smaller non-zero solution below it and that no vector is returned twice, "
+    "and for completeness computes all minimal solutions inside a box that bounds the components of every minimal "
+    "solution of the shape (Lambert's bound max|a_j| for one equation, (n-r)*D_r for a system) and demands that each "
+    "is returned",
+    "6/C46", TRUSTED + "; completeness relies on the published component bounds for minimal solutions (a returned "
+    "vector outside the box is still checked for minimality directly, so the bound cannot cause an alarm)",
+    "TLA+ definition of the Hilbert basis + TLC trace validation")
